@@ -58,7 +58,8 @@ def plan(chk, fam):
             for (a, m) in sel:
                 k, n, ad, x = r.bytes(KLEN[v], r.choice(['r', 'r', 'f'])), r.bytes(12), r.bytes(a), r.bytes(m, r.choice(['r', 'h']))
                 tag = f"{v}p{pm}a{a}m{m}"
-                common = f"{v} {pm} {H(k)} {H(n)} {H(ad)}"
+                pmi = pm + (100 if r.randint(0, 2) == 0 else 0)            # a third of the calls work in place
+                common = f"{v} {pmi} {H(k)} {H(n)} {H(ad)}"
                 g.append(f"{e} e{tag} {common} {H(x)} -1")
                 g.append(f"{d} d{tag} {common} @ -1")                                  # genuine packet
                 g.append(f"{d} t{tag} {common} @ {8 * m + r.randint(0, 63)}")             # one tag bit
@@ -84,26 +85,68 @@ def mode_stage(chk, fam):
     """Model + trace validation of one family of modes; records models, validations and violations on chk."""
     r = tlc_model(chk.wd, 'MC_Mode', cfg=f"MC_Mode_{fam}" + ('_thorough' if chk.thorough else ''))
     chk.add_model(f'MC_Mode[{fam}]', r)
-    exe = build_modedrive(chk.wd)
+    try:
+        exe = build_modedrive(chk.wd)
+    except MachineryError as e:
+        # the library itself compiled (build_lib raises first otherwise): the permutation is no longer reached through
+        # the external symbols this seam interposes on.  Not a violation: the public-interface stages judge the values.
+        chk.log("mode level: the link-time seam is not available in this tree (stage skipped): " + str(e)[:160])
+        chk.cov['mode_level'] = dict(family=fam, applicable=False, reason='modedrive does not link: no external permutation calls')
+        return None
     groups = plan(chk, fam)
     execs = run_groups(exe, groups)
+    # the same plan on other compilers / optimisation levels: executions identical to an earlier build's are judged once
+    seen = {json.dumps(ex, sort_keys=True) for ex in execs}
+    origin = [(gi, 'prod') for gi in range(len(execs))]          # execution index -> (group index, build)
+    for cfg in ('alt3', 'dbg') + (('uchar', 'os', 'alt0') if chk.thorough else ()):
+        try:
+            exe2 = build_modedrive(chk.wd, cfg)
+        except MachineryError:
+            continue
+        new = 0
+        for gi, ex in enumerate(run_groups(exe2, groups)):
+            key = json.dumps(ex, sort_keys=True)
+            if key not in seen:
+                origin.append((gi, cfg))
+                seen.add(key)
+                for e in ex:
+                    e['id'] = f"{cfg}:{e.get('id')}"
+                execs.append(ex)
+                new += 1
+        chk.log(f"mode level, build {cfg}: {new} executions not identical to an earlier build's")
     res = validate(chk.wd, 'TV_Mode', execs, cost=lambda e: 1)
     nperm = sum(1 for ex in execs for e in ex if e.get('e') == 'Perm')
     chk.add_validation('TV_Mode', res, execs, nontrivial=lambda e: e.get('e') == 'Ret')
     chk.cov['mode_level'] = dict(family=fam, public_calls=sum(len(g) for g in groups), permutation_calls_validated=nperm,
                                  answer_policies=[POLICIES[p] for p in sorted(POLICIES)])
+    # Soundness guard.  The stage judges the code as a client of tinyjambu_permutation_N.  If, with the REAL permutation
+    # answering, the public results are the functional specification's values but the call structure is not the machine's,
+    # the tree computes the mode by other means (cached key set-up, inlined or fused permutation calls): the seam does not
+    # apply and nothing is reported - the public-interface stages of the check judge bit-exactness.
+    pm_of = {ln.split()[1]: int(ln.split()[3]) % 100 for g in groups for ln in g}
+    def _pm(ev): return pm_of.get(str(ev.get('id')).split(':')[-1], -1)
+    def _fn(mm): return isinstance(mm.get('expected'), dict) and mm['expected'].get('what') == 'functional'
+    real_struct = [1 for (_, ev, mm) in res['mismatches'] if _pm(ev) == 0 and not _fn(mm)]
+    real_func = [1 for (_, ev, mm) in res['mismatches'] if _pm(ev) == 0 and _fn(mm)]
+    if real_struct and not real_func:
+        chk.log(f"mode level: {len(real_struct)} structural differences under the real permutation while every public result is "
+                f"the functional specification's: this tree does not compute the mode through the interposed calls; stage not applicable")
+        chk.cov['mode_level'].update(applicable=False, reason='call structure differs under the real permutation, public results correct')
+        return res
+    chk.cov['mode_level']['applicable'] = True
     seen = set()
     for (xi, ev, mm) in res['mismatches']:
         if xi in seen:
             continue
         seen.add(xi)
-        g = groups[xi] if xi < len(groups) else None
+        gi, cfg = origin[xi] if xi < len(origin) else (None, '?')
+        g = groups[gi] if gi is not None and gi < len(groups) else None
         pl = None
         if g is not None:
             # the calls of this execution up to and including the rejected one ("@" refers to the preceding encryption)
-            idx = next((i for i, ln in enumerate(g) if ln.split()[1] == ev.get('id')), len(g) - 1)
+            idx = next((i for i, ln in enumerate(g) if ln.split()[1] == str(ev.get('id')).split(':')[-1]), len(g) - 1)
             pl = [f"reset x{xi}"] + g[:idx + 1]
-            if len(seen) <= 2:
+            if len(seen) <= 2 and cfg == 'prod':
                 ex2 = split_executions(run_driver(exe, pl, timeout=300)[0])
                 r2 = validate(chk.wd, 'TV_Mode', ex2, shards=1)
                 if r2['errors']:
